@@ -21,8 +21,8 @@ ASSUMPTIONS = [
     'CODATA 2018 exact constants (k_B, e, N_A); atomic masses from pymatgen Element data',
     'relative tolerance 1e-9; total time = n_frames x time_step',
 ]
-N_CASES = {'quick': 320, 'thorough': 10000}
-BUDGET_S = {'quick': 200, 'thorough': 2400}
+N_CASES = {'quick': 320, 'thorough': 60000}
+BUDGET_S = {'quick': 200, 'thorough': 3600}
 KB = 1.380649e-23
 QE = 1.602176634e-19
 NA = 6.02214076e23
